@@ -5,6 +5,7 @@
 package p2
 
 import (
+	"google.golang.org/protobuf/encoding/protowire"
 	"google.golang.org/protobuf/proto"
 )
 
@@ -88,5 +89,41 @@ func pbC09(m pbMsg, expCurrent []byte) {
 	buf := make([]byte, m.Size())
 	err = m.MarshalTo(buf)
 	verifAssert(err == nil, "MarshalTo into Size() bytes succeeds after a mutation")
+	verifReach("end")
+}
+
+// pbUnknown builds one unknown field (a field number the corpus schemas never define) with a symbolic wire
+// type among the four supported ones and a symbolic payload.
+func pbUnknown(i int) []byte {
+	num := nondetIntN("unum", i)
+	verifAssume(num >= 100)
+	verifAssume(num <= 1000) // 2-byte keys; key sizes are C01/C02's subject
+	wt := nondetIntN("uwt", i)
+	verifAssume(wt == 0 || wt == 1 || wt == 2 || wt == 5)
+	b := make([]byte, 0, 32)
+	switch verifConcretize(wt) {
+	case 0:
+		v := nondetU64N("uv", i)
+		verifAssume(v < 1<<14)
+		b = protowire.AppendVarint(protowire.AppendTag(b, protowire.Number(num), protowire.VarintType), v)
+	case 1:
+		b = protowire.AppendFixed64(protowire.AppendTag(b, protowire.Number(num), protowire.Fixed64Type), nondetU64N("uv", i))
+	case 2:
+		pl := nondetBytesN("up", i, 2)
+		pl = pl[:verifConcretize(len(pl))]
+		b = protowire.AppendBytes(protowire.AppendTag(b, protowire.Number(num), protowire.BytesType), pl)
+	default:
+		b = protowire.AppendFixed32(protowire.AppendTag(b, protowire.Number(num), protowire.Fixed32Type), nondetU32N("uv32", i))
+	}
+	return b
+}
+
+// C07: after Unmarshal, Size accounts for the unknown fields and Marshal re-emits them byte for byte
+// (canonical order: known fields, then the unknown fields in the order they arrived)
+func pbC07(m pbMsg, want []byte) {
+	out, err := m.Marshal()
+	verifAssert(err == nil, "Marshal succeeds")
+	verifAssert(m.Size() == len(want), "Size accounts for the unknown fields")
+	verifAssertCanonical(m, out, want, "unknown fields are re-emitted byte for byte by the next Marshal")
 	verifReach("end")
 }
